@@ -1413,7 +1413,7 @@ let rec eval e st =
         let k = to_int vi in
         bind (chk (in_range k (alen r)) s) (fun _ ->
           match r with
-          | A1 (_, d) -> Ok (nthZ d k)
+          | A1 (dt, d) -> Ok (coerce dt (nthZ d k))
           | A2 (_, _, _, _) -> Er (OOB s))))
   | ERead2 (s, a, i, j) ->
     bind (get_arr st a) (fun r ->
@@ -1421,10 +1421,11 @@ let rec eval e st =
         bind (eval j st) (fun vj ->
           match r with
           | A1 (_, _) -> Er (OOB s)
-          | A2 (_, n, c, d) ->
+          | A2 (dt, n, c, d) ->
             bind
               (chk ((&&) (in_range (to_int vi) n) (in_range (to_int vj) c)) s)
-              (fun _ -> Ok (nthZ d (Z.add (Z.mul (to_int vi) c) (to_int vj)))))))
+              (fun _ -> Ok
+              (coerce dt (nthZ d (Z.add (Z.mul (to_int vi) c) (to_int vj))))))))
   | ESum (a, lo, hi) ->
     bind (get_arr st a) (fun r ->
       bind (eval lo st) (fun vl ->
